@@ -7,11 +7,13 @@ import (
 	"crypto"
 	"encoding/json"
 	"fmt"
+	cbor "github.com/fxamacker/cbor/v2"
 	"os"
 	"runtime/metrics"
 	"sort"
 	"strconv"
 	"strings"
+	"sync"
 	"time"
 
 	psatoken "github.com/veraison/psatoken"
@@ -86,6 +88,21 @@ func popTwinSmall() any {
 	return &popTwin{}
 }
 
+var deepDMs sync.Map
+
+// deepDM: a decoder mode whose nesting limit is n (the library takes the caller's mode for the populate helpers).
+func deepDM(n int) cbor.DecMode {
+	if m, ok := deepDMs.Load(n); ok {
+		return m.(cbor.DecMode)
+	}
+	m, err := cbor.DecOptions{IndefLength: cbor.IndefLengthForbidden, MaxNestedLevels: n}.DecMode()
+	if err != nil {
+		panic(err)
+	}
+	deepDMs.Store(n, m)
+	return m
+}
+
 type decodeEntry struct {
 	name string
 	json bool
@@ -150,6 +167,12 @@ func followUp(v any) {
 		_ = x.IsEmpty()
 		_, _ = x.MarshalCBOR()
 		_, _ = x.MarshalJSON()
+	case *psatoken.SwComponents[MapComp]:
+		_ = x.Validate()
+		_, _ = x.Values()
+		_ = x.IsEmpty()
+		_, _ = x.MarshalCBOR()
+		_, _ = x.MarshalJSON()
 	case *psatoken.SwComponents[*AltComp]:
 		_ = x.Validate()
 		_, _ = x.Values()
@@ -199,6 +222,19 @@ func decodeEntries() []decodeEntry {
 			c := &psatoken.SwComponents[*AltComp]{}
 			err := c.UnmarshalCBOR(in)
 			return c, err
+		}},
+		{"SwComponents[map-backed-component-type].UnmarshalCBOR", false, func(in []byte) (any, error) {
+			c := &psatoken.SwComponents[MapComp]{}
+			err := c.UnmarshalCBOR(in)
+			return c, err
+		}},
+		{"PopulateStructFromCBOR(flat, decoder nesting limit 300)", false, func(in []byte) (any, error) {
+			d := &popFlat{}
+			return d, encoding.PopulateStructFromCBOR(deepDM(300), in, d)
+		}},
+		{"PopulateStructFromCBOR(embedded1, decoder nesting limit 65535)", false, func(in []byte) (any, error) {
+			d := &popEmb1{}
+			return d, encoding.PopulateStructFromCBOR(deepDM(65535), in, d)
 		}},
 		{"PopulateStructFromCBOR(two types of the same name)", false, func(in []byte) (any, error) {
 			_ = encoding.PopulateStructFromCBOR(extDM, in, popTwinLarge())
@@ -254,6 +290,11 @@ func decodeEntries() []decodeEntry {
 		}},
 		{"SwComponents[other-component-type].UnmarshalJSON", true, func(in []byte) (any, error) {
 			c := &psatoken.SwComponents[*AltComp]{}
+			err := c.UnmarshalJSON(in)
+			return c, err
+		}},
+		{"SwComponents[map-backed-component-type].UnmarshalJSON", true, func(in []byte) (any, error) {
+			c := &psatoken.SwComponents[MapComp]{}
 			err := c.UnmarshalJSON(in)
 			return c, err
 		}},
@@ -1011,7 +1052,9 @@ func decodeScenarios(d *decodeCtx, thoroughTier bool) map[string]choice.Scenario
 		sb.WriteString("}")
 		d.feed(c, []byte(sb.String()), 1, fmt.Sprintf("%d member names, each twice", m))
 	}
-	depths := []int{16, 31, 32, 33, 1000, 10001, 32768}
+	// (the last two depths are multi-megabyte inputs: a recursion that follows the input instead of a nesting limit ends in
+	// a fatal stack overflow, which kills the worker; they are used for the array / tag / JSON-array chains only)
+	depths := []int{16, 31, 32, 33, 1000, 10001, 32768, 1 << 21, 1 << 23, 1 << 24}
 	sc["nesting"] = func(c *choice.Ctx) {
 		di := c.Choose("depth", len(depths))
 		shape := c.Choose("shape", 8)
@@ -1019,6 +1062,12 @@ func decodeScenarios(d *decodeCtx, thoroughTier bool) map[string]choice.Scenario
 			return
 		}
 		n := depths[di]
+		if n > 65536 && shape != 0 && shape != 2 && shape != 4 {
+			return
+		}
+		if n > 1<<23 && shape != 4 {
+			return // the largest one: JSON only, opening brackets only
+		}
 		var in []byte
 		kind := 0
 		switch shape {
@@ -1045,16 +1094,27 @@ func decodeScenarios(d *decodeCtx, thoroughTier bool) map[string]choice.Scenario
 			}
 			in = append(in, seed...)
 		case 4:
-			in = append(bytesRepeat([]byte{'['}, n), bytesRepeat([]byte{']'}, n)...)
+			in = bytesRepeat([]byte{'['}, n)
+			if n <= 1<<23 {
+				in = append(in, bytesRepeat([]byte{']'}, n)...)
+			}
 			kind = 1
 		case 5:
 			in = []byte(strings.Repeat(`{"a":`, n) + "1" + strings.Repeat("}", n))
 			kind = 1
 		}
-		if len(in) > 65536 {
+		if len(in) > 65536 && n <= 65536 {
 			in = in[:65536]
 		}
 		d.feed(c, in, kind, fmt.Sprintf("nesting shape %d depth %d", shape, n))
+		if n > 65536 {
+			if kind == 1 {
+				d.feed(c, []byte(`{"a":1,"zz":`+string(in)), 1, "nested JSON as member value (codec), unterminated")
+			} else if shape == 2 {
+				d.feed(c, append([]byte{0xa1, 0x00}, in...), 0, "nested CBOR tags as a field value")
+			}
+			return
+		}
 		// also as the value of a JSON member / claim
 		if kind == 1 {
 			d.feed(c, []byte(`{"psa-profile":"PSA_IOT_PROFILE_1","x":`+string(in)+`}`), 1, "nested JSON as member value")
